@@ -589,5 +589,14 @@ def random_pyobj_pair(r, opts):
         b = {"payload": r.choice(bts), "tags": r.choice(sets), "rest": b}
         if r.random() < 0.3:
             a, b = [a["payload"], a["tags"]], [b["payload"], b["tags"]]
+    elif r.random() < 0.2:
+        # ONE list object referenced from two places of the first document (what unpickling a memoised object gives): every
+        # reference is the same data under the same options
+        x = [r.randint(0, 5) for _ in range(r.randint(3, 5))]
+        y = r.choice((x[1:], x[1:] + [9], x[:-1], [9] + x[:-1]))
+        a = {"a": x, "b": x, "c": [x, 1]}
+        b = {"a": list(x), "b": y, "c": [list(y), 1]}
+        if r.random() < 0.5:
+            a, b = [x, x, "k"], [list(x), y, "k"]
     bo = build_options(opts)
     return pydiff.build_tree(a, bo), pydiff.build_tree(b, bo)
